@@ -208,6 +208,17 @@ func (g *pgen) node(depth int) []interface{} {
 		}
 		body := []interface{}{nBuf(eId(key), true), nText("="), nBuf(eId(val), true), nText(";")}
 		body = append(body, g.block(depth-2)...)
+		if r.Chance(1, 3) {
+			// an object literal that GROWS before it is iterated: keys added by assignment come after the written ones, in the
+			// order they were added; assigning to a key that exists keeps its place
+			ob := g.fresh("ob")
+			pre := []interface{}{nRaw(sVar(ob, eObj("pears", eNum("1"), "apples", eStr("two")))),
+				nRaw(sAssign(eDot(eId(ob), "zeta"), eNum("3"))), nRaw(sAssign(eIdx(eId(ob), eStr("alpha")), eStr("four")))}
+			if r.Bool() {
+				pre = append(pre, nRaw(sAssign(eDot(eId(ob), "pears"), eNum("5"))))
+			}
+			return append(pre, nEach(val, key, eId(ob), body...))
+		}
 		return []interface{}{nEach(val, key, obj, body...)}
 	case 10, 11: // while with a counter
 		i := g.fresh("c")
